@@ -1,6 +1,7 @@
 // Command gen/c12 prints coq/Gen/C12Facts.v from the /repo working tree: structural facts about the
-// oracle's slashing / reward / tally code (terms, never verdicts), in normal forms that are stable under
-// helper extraction, De Morgan-inverted guards, early returns / continues and renamings.
+// oracle's slashing / reward / tally code (terms, never verdicts).  Whole packages are parsed, helper calls
+// are followed transitively, guards are read as path conditions with pure predicates expanded — stable
+// under helper / struct extraction, De Morgan-inverted guards, early returns / continues, renamings.
 package main
 
 import (
@@ -12,168 +13,21 @@ import (
 	. "verifharness/genlib"
 )
 
-// ---------------------------------------------------------------- generic helpers
-
-// noTestUtils drops test helper files that are not named *_test.go.
-func noTestUtils(fs []File) []File {
-	var out []File
-	for _, f := range fs {
-		if !strings.HasSuffix(f.Path, "test_utils.go") {
-			out = append(out, f)
-		}
-	}
-	return out
-}
-
-func recvName(fd *ast.FuncDecl) string {
-	if fd.Recv != nil && len(fd.Recv.List) > 0 && len(fd.Recv.List[0].Names) > 0 {
-		return fd.Recv.List[0].Names[0].Name
-	}
-	return ""
-}
-
-func recvType(fd *ast.FuncDecl) string {
-	if fd.Recv == nil || len(fd.Recv.List) == 0 {
-		return ""
-	}
-	t := fd.Recv.List[0].Type
-	if s, ok := t.(*ast.StarExpr); ok {
-		t = s.X
-	}
-	if id, ok := t.(*ast.Ident); ok {
-		return id.Name
-	}
-	return ""
-}
-
-func method(files []File, typ, name string) *ast.FuncDecl {
-	for _, fl := range files {
-		for _, d := range fl.F.Decls {
-			if fd, ok := d.(*ast.FuncDecl); ok && fd.Name.Name == name && recvType(fd) == typ && fd.Body != nil {
-				return fd
-			}
-		}
-	}
-	return nil
-}
-
-func strip(e ast.Expr) ast.Expr {
-	for {
-		p, ok := e.(*ast.ParenExpr)
-		if !ok {
-			return e
-		}
-		e = p.X
-	}
-}
-
-func isConv(e ast.Expr) bool {
-	e = strip(e)
-	id, ok := e.(*ast.Ident)
-	return ok && (id.Name == "uint64" || id.Name == "int64" || id.Name == "int" || id.Name == "uint")
-}
-
-// sexp prints a fully parenthesised prefix form; integer conversions are dropped, identifiers are
-// renamed / inlined through sub, selectors listed in bare lose their qualifier.
-func sexp(e ast.Expr, sub map[string]ast.Expr, ren map[string]string, bare map[string]bool, depth int) string {
-	e = strip(e)
-	switch x := e.(type) {
-	case *ast.Ident:
-		if depth < 6 {
-			if d, ok := sub[x.Name]; ok {
-				return sexp(d, sub, ren, bare, depth+1)
-			}
-		}
-		if r, ok := ren[x.Name]; ok {
-			return r
-		}
-		return x.Name
-	case *ast.BasicLit:
-		return x.Value
-	case *ast.BinaryExpr:
-		return "(" + x.Op.String() + " " + sexp(x.X, sub, ren, bare, depth) + " " + sexp(x.Y, sub, ren, bare, depth) + ")"
-	case *ast.UnaryExpr:
-		return "(" + x.Op.String() + " " + sexp(x.X, sub, ren, bare, depth) + ")"
-	case *ast.SelectorExpr:
-		if bare[x.Sel.Name] {
-			return x.Sel.Name
-		}
-		return sexp(x.X, sub, ren, bare, depth) + "." + x.Sel.Name
-	case *ast.CallExpr:
-		if isConv(x.Fun) && len(x.Args) == 1 {
-			return sexp(x.Args[0], sub, ren, bare, depth)
-		}
-		if s, ok := x.Fun.(*ast.SelectorExpr); ok && s.Sel.Name == "BlockHeight" && len(x.Args) == 0 {
-			return "H"
-		}
-		var as []string
-		for _, a := range x.Args {
-			as = append(as, sexp(a, sub, ren, bare, depth))
-		}
-		return "call(" + sexp(x.Fun, sub, ren, bare, depth) + ";" + strings.Join(as, ",") + ")"
-	}
-	return "?" + Nospace(e)
-}
-
-// simpleDefs collects `x := e` (single value) definitions of a function body.
-func simpleDefs(body *ast.BlockStmt) map[string]ast.Expr {
-	m := map[string]ast.Expr{}
-	ast.Inspect(body, func(n ast.Node) bool {
-		if a, ok := n.(*ast.AssignStmt); ok && a.Tok == token.DEFINE && len(a.Lhs) == 1 && len(a.Rhs) == 1 {
-			if id, ok := a.Lhs[0].(*ast.Ident); ok {
-				m[id.Name] = a.Rhs[0]
-			}
-		}
-		return true
-	})
-	return m
-}
-
-func conjuncts(e ast.Expr, op token.Token) []ast.Expr {
-	e = strip(e)
-	if b, ok := e.(*ast.BinaryExpr); ok && b.Op == op {
-		return append(conjuncts(b.X, op), conjuncts(b.Y, op)...)
-	}
-	return []ast.Expr{e}
-}
-
-func callSel(e ast.Expr) (recv ast.Expr, name string, args []ast.Expr, ok bool) {
-	c, isCall := strip(e).(*ast.CallExpr)
-	if !isCall {
-		return nil, "", nil, false
-	}
-	s, isSel := c.Fun.(*ast.SelectorExpr)
-	if !isSel {
-		return nil, "", nil, false
-	}
-	return s.X, s.Sel.Name, c.Args, true
-}
-
-func coqList(xs []string) string {
-	var q []string
-	for _, x := range xs {
-		q = append(q, CoqString(x))
-	}
-	return "[" + strings.Join(q, "; ") + "]"
-}
-
-func callSelNode(n ast.Node) (ast.Expr, string, []ast.Expr, bool) {
-	e, ok := n.(ast.Expr)
-	if !ok {
-		return nil, "", nil, false
-	}
-	return callSel(e)
-}
-
-// tallyUpper: form of the upper band test in Tally.
-func tallyForm(fd *ast.FuncDecl) (lowerOK bool, upper string, halved bool) {
+// tallyForm: the two band tests and the halving of the band, anywhere in the call closure of Tally.
+func tallyForm(p *pkg, fd *ast.FuncDecl) (lowerOK bool, upper string, halved bool) {
 	upper = "TallyOther"
-	ast.Inspect(fd.Body, func(n ast.Node) bool {
+	p.inspectClosure(fd, func(_ *ast.FuncDecl, n ast.Node) bool {
+		if c, ok := n.(*ast.CallExpr); ok {
+			if recv, name, args, ok := callSel(c); ok && name == "QuoInt64" && len(args) == 1 && Nospace(args[0]) == "2" &&
+				strings.HasSuffix(strings.ToLower(Nospace(recv)), "band") {
+				halved = true
+			}
+		}
 		b, ok := n.(*ast.BinaryExpr)
 		if !ok || b.Op != token.LAND {
 			return true
 		}
-		for _, c := range conjuncts(b, token.LAND) {
+		for _, c := range split(b, token.LAND) {
 			recv, name, args, ok := callSel(c)
 			if !ok || len(args) != 1 {
 				continue
@@ -193,121 +47,95 @@ func tallyForm(fd *ast.FuncDecl) (lowerOK bool, upper string, halved bool) {
 		}
 		return true
 	})
-	halved = strings.Contains(Nospace(fd.Body), "and.QuoInt64(2)")
 	return
 }
 
-
-// containsCall reports whether n contains a call of a selector with the given name.
-func containsCall(n ast.Node, name string) bool {
-	found := false
-	ast.Inspect(n, func(x ast.Node) bool {
-		if _, nm, _, ok := callSelNode(x); ok && nm == name {
-			found = true
-		}
-		return true
-	})
-	return found
-}
-
-// atom normalises one conjunct of the slash guard; neg = the conjunct is to be read negated.
-func atom(e ast.Expr, neg bool) string {
-	e = strip(e)
-	if u, ok := e.(*ast.UnaryExpr); ok && u.Op == token.NOT {
-		return atom(u.X, !neg)
+// gateOf: the period gates on the path to the call of `name` in EndBlocker, e.g. ["+VotePeriod"].
+func gateOf(p *pkg, fd *ast.FuncDecl, name string) []string {
+	owner, call := p.findCall(fd, name, nil)
+	if call == nil {
+		return []string{"missing"}
 	}
-	if b, ok := e.(*ast.BinaryExpr); ok && (b.Op == token.NEQ || b.Op == token.EQL) {
-		if id, ok := strip(b.Y).(*ast.Ident); ok && id.Name == "nil" {
-			isNonNil := b.Op == token.NEQ
-			if neg {
-				isNonNil = !isNonNil
-			}
-			if isNonNil {
-				return "nonnil"
-			}
-			return "nil"
+	var out []string
+	for _, l := range p.literals(pathConds(owner.Body, call)) {
+		if isErrCond(l.e) {
+			continue
 		}
-	}
-	if _, name, args, ok := callSel(e); ok && len(args) == 0 {
-		switch name {
-		case "IsBonded":
-			if neg {
-				return "notbonded"
-			}
-			return "bonded"
-		case "IsJailed":
-			if neg {
-				return "notjailed"
-			}
-			return "jailed"
+		sign := "+"
+		if !l.pos {
+			sign = "-"
 		}
-	}
-	return "other:" + Nospace(e)
-}
-
-// slashGuard: the conditions under which Slash is reached, in the function that calls it.
-func slashGuard(fd *ast.FuncDecl) (atoms []string) {
-	ast.Inspect(fd.Body, func(n ast.Node) bool {
-		i, ok := n.(*ast.IfStmt)
-		if !ok || !strings.Contains(Nospace(i.Cond), "IsBonded") {
-			return true
-		}
-		if containsCall(i.Body, "Slash") {
-			// positive guard: if a && b && c { … Slash … }
-			for _, c := range conjuncts(i.Cond, token.LAND) {
-				atoms = append(atoms, atom(c, false))
+		if c, ok := l.e.(*ast.CallExpr); ok && strings.HasSuffix(Nospace(c.Fun), "IsPeriodLastBlock") && len(c.Args) == 2 {
+			a := Nospace(c.Args[1])
+			if i := strings.LastIndex(a, "."); i >= 0 {
+				a = a[i+1:]
 			}
+			out = append(out, sign+a)
 		} else {
-			// negative guard: if x || y || z { return / continue } … Slash …
-			for _, c := range conjuncts(i.Cond, token.LOR) {
-				atoms = append(atoms, atom(c, true))
+			out = append(out, sign+"other:"+Nospace(l.e))
+		}
+	}
+	return out
+}
+
+
+// slashGuard: the literals on the path to the Slash call, classified.
+func slashGuard(p *pkg, fd *ast.FuncDecl) (atoms []string) {
+	owner, call := p.findCall(fd, "Slash", func(c *ast.CallExpr) bool { return len(c.Args) == 5 })
+	if call == nil {
+		return []string{"missing"}
+	}
+	for _, l := range p.literals(pathConds(owner.Body, call)) {
+		if isErrCond(l.e) {
+			continue
+		}
+		if b, ok := l.e.(*ast.BinaryExpr); ok && (b.Op == token.NEQ || b.Op == token.EQL) {
+			if id, ok := strip(b.Y).(*ast.Ident); ok && id.Name == "nil" {
+				if (b.Op == token.NEQ) == l.pos {
+					atoms = append(atoms, "nonnil")
+				} else {
+					atoms = append(atoms, "nil")
+				}
+				continue
 			}
 		}
-		return true
-	})
+		if _, name, args, ok := callSel(l.e); ok {
+			switch {
+			case name == "IsBonded" && len(args) == 0:
+				atoms = append(atoms, map[bool]string{true: "bonded", false: "notbonded"}[l.pos])
+				continue
+			case name == "IsJailed" && len(args) == 0:
+				atoms = append(atoms, map[bool]string{true: "jailed", false: "notjailed"}[l.pos])
+				continue
+			case name == "LT" && l.pos: // valid vote rate below the minimum
+				atoms = append(atoms, "lowrate")
+				continue
+			}
+		}
+		atoms = append(atoms, "other:"+Nospace(l.e))
+	}
 	return
 }
 
 func main() {
 	repo := Repo()
 	Header(repo)
-	keeper := noTestUtils(ParseDir(repo + "/x/oracle/keeper"))
-	kf := Funcs(keeper)
+	kp := loadPkg(repo + "/x/oracle/keeper")
+	ap := loadPkg(repo + "/x/oracle")
 
-	// SlashAndResetMissCounters (+ the helper that holds the Slash call, if any)
-	var atoms []string
-	guardedInHelper := false
+	atoms := []string{"missing"}
 	nContinue, contOnlyOnError, deleteTop, castKind := 99, false, false, "CastOther"
-	if fd := kf["SlashAndResetMissCounters"]; fd != nil && fd.Body != nil {
-		holder := fd
-		if !strings.Contains(Nospace(fd.Body), "IsBonded") {
-			// follow one helper level
-			rn := recvName(fd)
-			ast.Inspect(fd.Body, func(n ast.Node) bool {
-				recv, name, _, ok := callSelNode(n)
-				if !ok {
-					return true
-				}
-				if id, ok := recv.(*ast.Ident); ok && id.Name == rn {
-					if h := kf[name]; h != nil && h.Body != nil && strings.Contains(Nospace(h.Body), "IsBonded") {
-						holder = h
-						guardedInHelper = true
-					}
-				}
-				return true
-			})
-		}
-		atoms = slashGuard(holder)
-		// the loop over the miss counters
+	if fd := kp.fn("SlashAndResetMissCounters"); fd != nil {
+		atoms = slashGuard(kp, fd)
+		// the loop over the miss counters (wherever in the closure) and the Delete in it
 		var loop *ast.RangeStmt
-		ast.Inspect(fd.Body, func(n ast.Node) bool {
+		kp.inspectClosure(fd, func(_ *ast.FuncDecl, n ast.Node) bool {
 			if r, ok := n.(*ast.RangeStmt); ok && loop == nil && strings.Contains(Nospace(r.X), "MissCounters") {
 				loop = r
 			}
 			return true
 		})
 		if loop != nil {
-			// Delete directly in the loop body (possibly as the init of an `if err := …; err != nil`)
 			var delPos token.Pos
 			for _, s := range loop.Body.List {
 				switch x := s.(type) {
@@ -321,45 +149,34 @@ func main() {
 					}
 				}
 			}
-			// continue statements before the Delete and the conditions guarding them
 			nContinue, contOnlyOnError = 0, true
-			var ifs []*ast.IfStmt
-			var visit func(n ast.Node)
-			visit = func(n ast.Node) {
-				ast.Inspect(n, func(x ast.Node) bool {
-					if x == nil || x == n {
-						return true
-					}
-					switch y := x.(type) {
-					case *ast.FuncLit, *ast.RangeStmt, *ast.ForStmt:
-						return false
-					case *ast.IfStmt:
-						ifs = append(ifs, y)
-						visit(y.Body)
-						if y.Else != nil {
-							visit(y.Else)
+			ast.Inspect(loop.Body, func(x ast.Node) bool {
+				switch y := x.(type) {
+				case *ast.FuncLit:
+					return false
+				case *ast.RangeStmt, *ast.ForStmt:
+					return x == ast.Node(loop)
+				case *ast.BranchStmt:
+					if y.Tok == token.CONTINUE && (delPos == 0 || y.Pos() < delPos) {
+						nContinue++
+						// innermost condition guarding this continue
+						pcs := pathConds(loop.Body, y)
+						ok := false
+						if len(pcs) > 0 {
+							last := pcs[len(pcs)-1]
+							c := Nospace(last.cond)
+							ok = last.pos && (c == "err!=nil" || c == "!ok")
 						}
-						ifs = ifs[:len(ifs)-1]
-						return false
-					case *ast.BranchStmt:
-						if y.Tok == token.CONTINUE && (delPos == 0 || y.Pos() < delPos) {
-							nContinue++
-							c := ""
-							if len(ifs) > 0 {
-								c = Nospace(ifs[len(ifs)-1].Cond)
-							}
-							if !(c == "err!=nil" || c == "!ok") {
-								contOnlyOnError = false
-							}
+						if !ok {
+							contOnlyOnError = false
 						}
 					}
-					return true
-				})
-			}
-			visit(loop.Body)
+				}
+				return true
+			})
 		}
-		// the cast applied to (periods - misses)
-		ast.Inspect(fd.Body, func(n ast.Node) bool {
+		// the cast applied to (periods - misses), anywhere in the closure
+		kp.inspectClosure(fd, func(_ *ast.FuncDecl, n ast.Node) bool {
 			c, ok := n.(*ast.CallExpr)
 			if !ok || len(c.Args) != 1 {
 				return true
@@ -387,39 +204,69 @@ func main() {
 	}
 	nOther := 0
 	for _, a := range atoms {
-		if a != "nonnil" && a != "bonded" && a != "notjailed" {
+		if a != "nonnil" && a != "bonded" && a != "notjailed" && a != "lowrate" {
 			nOther++
 		}
 	}
 
 	// AllocateRewards: how the per-period amount is computed
 	perPeriod := "DivOther"
-	if fd := kf["AllocateRewards"]; fd != nil && fd.Body != nil {
-		if containsCall(fd.Body, "QuoRaw") && !containsCall(fd.Body, "RoundInt") && !containsCall(fd.Body, "Quo") {
+	if fd := kp.fn("AllocateRewards", "Keeper"); fd != nil {
+		quoRaw, other := false, false
+		kp.inspectClosure(fd, func(_ *ast.FuncDecl, n ast.Node) bool {
+			if _, name, _, ok := callSelNode(n); ok {
+				switch name {
+				case "QuoRaw":
+					quoRaw = true
+				case "Quo", "QuoInt64", "RoundInt", "QuoRoundUp", "Ceil":
+					other = true
+				}
+			}
+			return true
+		})
+		if quoRaw && !other {
 			perPeriod = "DivQuoRaw"
 		}
 	}
 	// rewardWinners: share = NewDec(weight).QuoInt64(total), truncated
 	shareNormalised, shareTruncated := false, false
-	if fd := kf["rewardWinners"]; fd != nil && fd.Body != nil {
-		b := Nospace(fd.Body)
-		shareNormalised = strings.Contains(b, ".QuoInt64(totalRewardWeight)") || (containsCall(fd.Body, "QuoInt64") && strings.Contains(b, "RewardWeight"))
-		shareTruncated = containsCall(fd.Body, "TruncateDecimal")
+	if fd := kp.fn("rewardWinners"); fd != nil {
+		kp.inspectClosure(fd, func(_ *ast.FuncDecl, n ast.Node) bool {
+			if recv, name, args, ok := callSelNode(n); ok {
+				if name == "QuoInt64" && len(args) == 1 && strings.Contains(strings.ToLower(Nospace(args[0])), "total") {
+					if c, ok := strip(recv).(*ast.CallExpr); ok && strings.HasSuffix(Nospace(c.Fun), "NewDec") {
+						shareNormalised = true
+					}
+				}
+				if name == "TruncateDecimal" {
+					shareTruncated = true
+				}
+			}
+			return true
+		})
 	}
 	// Tally
 	lowerOK, upper, halved := false, "TallyOther", false
 	abstain := false
-	if fd := kf["Tally"]; fd != nil && fd.Body != nil {
-		lowerOK, upper, halved = tallyForm(fd)
-		for name, rhs := range simpleDefs(fd.Body) {
-			if strings.Contains(strings.ToLower(name), "abstain") {
-				if u, ok := strip(rhs).(*ast.UnaryExpr); ok && u.Op == token.NOT {
-					if recv, nm, _, ok := callSel(u.X); ok && nm == "IsPositive" && strings.HasSuffix(Nospace(recv), "ExchangeRate") {
-						abstain = true
+	if fd := kp.fn("Tally"); fd != nil {
+		lowerOK, upper, halved = tallyForm(kp, fd)
+		for _, d := range kp.closure(fd) {
+			for name, rhs := range simpleDefs(d.Body) {
+				if strings.Contains(strings.ToLower(name), "abstain") {
+					if u, ok := strip(rhs).(*ast.UnaryExpr); ok && u.Op == token.NOT {
+						if recv, nm, _, ok := callSel(u.X); ok && nm == "IsPositive" && strings.HasSuffix(Nospace(recv), "ExchangeRate") {
+							abstain = true
+						}
 					}
 				}
 			}
 		}
+	}
+	// EndBlocker gates
+	updGate, slashGate := []string{"missing"}, []string{"missing"}
+	if fd := ap.fn("EndBlocker"); fd != nil {
+		updGate = gateOf(ap, fd, "UpdateExchangeRates")
+		slashGate = gateOf(ap, fd, "SlashAndResetMissCounters")
 	}
 
 	fmt.Println("Require Import Nib.C10.Cfg Nib.C12.Cfg.")
@@ -439,8 +286,9 @@ func main() {
 	fmt.Printf("  sc_tally_lower := %s;\n", CoqBool(lowerOK))
 	fmt.Printf("  sc_tally_upper := %s;\n", upper)
 	fmt.Printf("  sc_band_halved := %s;\n", CoqBool(halved))
-	fmt.Printf("  sc_abstain_not_positive := %s |}.\n", CoqBool(abstain))
+	fmt.Printf("  sc_abstain_not_positive := %s;\n", CoqBool(abstain))
+	fmt.Printf("  sc_update_gate := %s;\n", coqStrs(updGate))
+	fmt.Printf("  sc_slash_gate := %s |}.\n", coqStrs(slashGate))
 	fmt.Println("(* diagnostics (not used by the obligations) *)")
-	fmt.Printf("Definition slash_guard_atoms : list string := %s.\n", coqList(atoms))
-	fmt.Printf("Definition slash_guard_in_helper : bool := %s.\n", CoqBool(guardedInHelper))
+	fmt.Printf("Definition slash_guard_atoms : list string := %s.\n", coqStrs(atoms))
 }
